@@ -19,7 +19,10 @@ static const char* const MENU[] = {
   "[\xCE\xB1\xE2\x88\x88\xE2\x84\xAC(X1)] \xCE\xB1\xE2\x88\xAAX1", "[\xCE\xB1\xE2\x88\x88X1, \xCE\xB2\xE2\x88\x88\xE2\x84\xAC(X1)] \xCE\xB1\xE2\x88\x88\xCE\xB2", "card(X1)+1",
   "X1\n\xE2\x88\xAAX2", "X1\xE2\x88\xAA\nX9", "debool(X1)", "Pr1(S1)", "pr1(S1)", "\xE2\x88\x80\xCE\xBE\xE2\x88\x88X1 \xCE\xBE\xE2\x88\x88X1",
   "D{\xCE\xBE\xE2\x88\x88X1 | \xCE\xBE\xE2\x88\x89X2}", "\xE2\x84\xAC(\xE2\x84\xAC(X1))", "@", "{1,X1}", "F1[X1, X1]", "F1[X1]", "P1[X1] & A1",
-  "R{\xCE\xBE:=X1 | \xCE\xBE\\X1}", "I{a | a:\xE2\x88\x88X1; a\xE2\x88\x88X2}", "\xE2\x88\x80\xCE\xBE\xE2\x88\x88X1 \xCE\xBE\xE2\x88\x88\xCE\xB6"};
+  "R{\xCE\xBE:=X1 | \xCE\xBE\\X1}", "I{a | a:\xE2\x88\x88X1; a\xE2\x88\x88X2}", "\xE2\x88\x80\xCE\xBE\xE2\x88\x88X1 \xCE\xBE\xE2\x88\x88\xCE\xB6",
+  // an error inside a scope nested in another scope (for every kind of binder), and inputs that declare or use the same names
+  "\xE2\x88\x80\xCE\xBE\xE2\x88\x88X1 \xE2\x88\x83\xCE\xB6\xE2\x88\x88X1 (\xCE\xBE=\xCF\x89)", "D{\xCE\xBE\xE2\x88\x88X1 | \xE2\x88\x80\xCE\xB6\xE2\x88\x88X1 \xCE\xB6\xE2\x88\x88X9}", "I{a | a:\xE2\x88\x88X1; \xE2\x88\x80\xCE\xB6\xE2\x88\x88X1 \xCE\xB6=b}",
+  "R{\xCE\xBE:=X1 | \xE2\x88\x83\xCE\xB6\xE2\x88\x88X1 \xCE\xB6=\xCF\x89 | \xCE\xBE}", "D{\xCE\xB6\xE2\x88\x88X1 | \xCE\xB6=\xCE\xBE}", "{a\xE2\x88\x88X1 | a=a}"};
 static const int NMENU = sizeof(MENU) / sizeof(MENU[0]);
 
 static std::string num(long long v) { return std::to_string(v); }
